@@ -323,6 +323,34 @@ func c19checkStmt(text string) []ev.Finding {
 			out = append(out, ev.Finding{Sig: "not-admin:" + tn, Witness: text, Detail: fmt.Sprintf("administrative statement does not require admin: %v", eps), Case: cs, Rank: len(text)})
 		}
 	}
+	// the list is the caller's: after the caller has overwritten every element of it, this statement parsed afresh and
+	// another administrative statement are asked again and answer as before
+	if len(out) == 0 && len(eps) > 0 {
+		before := fmt.Sprint(eps)
+		probe, _ := influxql.ParseStatement("SHOW USERS")
+		probeBefore := ""
+		if probe != nil {
+			p0, _ := probe.RequiredPrivileges()
+			probeBefore = fmt.Sprint(p0)
+		}
+		for i := range eps {
+			eps[i] = influxql.ExecutionPrivilege{Admin: false, Name: "scratch", Privilege: influxql.NoPrivileges}
+		}
+		again, _ := influxql.ParseStatement(text)
+		var eps2, eps3 influxql.ExecutionPrivileges
+		if p, _ := try(func() {
+			eps2, _ = again.RequiredPrivileges()
+			if probe != nil {
+				eps3, _ = probe.RequiredPrivileges()
+			}
+		}); p == nil {
+			if fmt.Sprint(eps2) != before {
+				out = append(out, ev.Finding{Sig: "privileges-depend-on-what-a-caller-did-with-an-earlier-list:" + tn, Witness: text, Detail: fmt.Sprintf("first answer %s; after the caller overwrote that list the same statement answers %v", before, eps2), Case: cs, Rank: len(text)})
+			} else if probe != nil && fmt.Sprint(eps3) != probeBefore {
+				out = append(out, ev.Finding{Sig: "privileges-depend-on-what-a-caller-did-with-an-earlier-list:SHOW_USERS-after-" + tn, Witness: text, Detail: fmt.Sprintf("SHOW USERS answered %s; after the caller overwrote the list of %q it answers %v", probeBefore, text, eps3), Case: cs, Rank: len(text)})
+			}
+		}
+	}
 	return out
 }
 
